@@ -191,6 +191,7 @@ def apply(acc, w, action, cid):
             w.outstanding.clear()        # the order is over: nothing can be outstanding any more
     else:
         w.reports += x.step(action[2:])
+        acc.addmap("exchange_actions", action[2:])
     # ---- step monitors
     acc.oracle("status-is-enum-member")
     if not isinstance(o.status, FOrdStatus):
